@@ -10,7 +10,7 @@ from concurrent.futures import ThreadPoolExecutor
 from common import (LAUNCH, NCPU, HarnessError, Rng, cleanup_run_dir, derive, log, run_dir, shim_env,
                     short_hash, sim_bin, write_evidence, write_replay, VERIF)
 
-SIM_TIMEOUT_S = 60
+SIM_TIMEOUT_S = 25
 ORACLE_TIMEOUT_S = 30
 
 
@@ -72,10 +72,15 @@ class ParseSim:
                 chars.insert(rng.below(len(chars) + 1), rng.choice(g["tokens"]))
             elif chars:
                 chars[rng.below(len(chars))] = rng.choice(g["tokens"])
+        if not g.get("custom_ws") and rng.coin(120):
+            # a run of 8..20 blank-like characters (real whitespace and control characters that are not) at a seeded place
+            run = "".join(rng.choice([" ", " ", " ", "\t", "\n", "\r", "\x0c", "\x0b", "\x00", "\x1f"]) for _ in range(rng.range(8, 20)))
+            pos = rng.below(len(chars) + 1)
+            return self.clamp(g, "".join(chars[:pos]) + run + "".join(chars[pos:]), limit=64)
         return self.clamp(g, "".join(chars))
 
-    def clamp(self, g, s):
-        s = truncate_utf8(s, 40)
+    def clamp(self, g, s, limit=40):
+        s = truncate_utf8(s, limit)
         mr = g.get("max_run")
         if mr:
             out = []
@@ -94,10 +99,10 @@ class ParseSim:
         s = dp["prefix"] + dp["open"] * n + dp["core"] + dp["close"] * (n if rng.coin(850) else n - 1) + dp["suffix"]
         return s
 
-    def gen_long_input(self, rng, gname):
-        """Input of 70..200 KB made of valid items: offsets beyond 2^16 (cache keys, positions) are reached."""
+    def gen_long_input(self, rng, gname, targets=(4200, 9000, 70000, 100000, 140000, 200000)):
+        """Input of 4..200 KB made of valid items: offsets beyond 2^12 / 2^16 (cache keys, positions) are reached."""
         lg = self.grammars[gname]["long"]
-        target = rng.choice([4200, 9000, 70000, 100000, 140000, 200000])
+        target = rng.choice(list(targets))
         parts = []
         size = 0
         while size < target:
@@ -193,16 +198,41 @@ class ParseSim:
                     v = self.by_name[vn]
                     job = {"variant": vn, "rule": rng.choice(v["exported"]), "input": self.gen_input(rng, v["grammar"]),
                            "ctx": self.gen_ctx(rng, v)}
+                job["align"] = rng.below(8)
                 job["entry"] = "sim" if deep_sim else rng.weighted([("sim", 60), ("parse", 15), ("noop", 10), ("trace", 15)])
                 est += (len(job["input"]) * 20 if deep_sim else 150) if job["entry"] == "sim" else 4
                 q.append(job)
                 prev_jobs.append(job)
             tasks.append(q)
+        aged = (not deep_sim) and rng.coin(80)
+        if aged:
+            # an aged process: before its ordinary jobs every task parses a long input of the variant its jobs use
+            # (thousands of rule calls and cache lookups in this process), so that state accumulated over the life of a
+            # process (counters, thresholds, adaptive switches, pools) shows in the later jobs
+            longg = sorted(n for n in gnames if "long" in self.grammars[n] and not self.grammars[n]["ctx"])
+            g = rng.choice(longg)
+            full = max(self.by_grammar[g], key=lambda v: v["mask"])
+            v = full if rng.coin(600) else rng.choice(self.by_grammar[g])
+            rule = self.grammars[g]["long"].get("rule", v["exported"][0])
+            tasks = []
+            for _ in range(rng.range(1, 3)):
+                q = [{"variant": v["name"], "rule": rule, "input": self.gen_long_input(rng, g, [20000, 40000]), "ctx": [0, 0],
+                      "entry": rng.choice(["parse", "noop"]), "align": rng.below(8)}]
+                prev = None
+                for _ in range(rng.range(2, 6)):
+                    inp = self.related_input(rng, g, prev) if prev is not None and rng.coin(400) else self.gen_input(rng, g)
+                    prev = inp
+                    q.append({"variant": v["name"], "rule": rng.choice(v["exported"]), "input": inp, "ctx": [0, 0],
+                              "entry": rng.weighted([("sim", 50), ("parse", 30), ("noop", 20)]), "align": rng.below(8)})
+                tasks.append(q)
+            ntasks = len(tasks)
+            vs = [v["name"]]
         sim_seed = rng.next()
         plan = {
             "id": i, "sim_seed": sim_seed, "entropy": sim_seed >> 1,
+            "reuse_buffer": rng.coin(400), "aged": aged,
             "policy": {"kind": "random", "switch_permille": rng.choice([2, 5, 20])} if deep_sim else self.gen_policy(rng, ntasks, est, vs),
-            "start_at": [0] * ntasks if deep_sim else [0 if rng.coin(600) else rng.below(max(est // 2, 1)) for _ in range(ntasks)],
+            "start_at": [0] * ntasks if (deep_sim or aged) else [0 if rng.coin(600) else rng.below(max(est // 2, 1)) for _ in range(ntasks)],
             "fresh_threads": rng.coin(300),
             "deep": deep_sim,
             "tasks": tasks,
@@ -233,14 +263,20 @@ class ParseSim:
                 else:
                     inp = self.gen_input(rng, g)
                 prev = inp
-                job = {"variant": vn, "rule": rng.choice(v["exported"]), "input": inp, "ctx": [0, 0],
+                job = {"variant": vn, "rule": rng.choice(v["exported"]), "input": inp, "ctx": [0, 0], "align": rng.below(8),
                        "entry": rng.weighted([("sim", 70), ("parse", 20), ("noop", 10)])}
                 est += 150 if job["entry"] == "sim" else 4
                 q.append(job)
             tasks.append(q)
+        aged = "long" in self.grammars[g] and rng.coin(100)
+        if aged:
+            warm = {"variant": vs[0], "rule": self.grammars[g]["long"].get("rule", self.by_name[vs[0]]["exported"][0]), "input": self.gen_long_input(rng, g, [6000, 12000, 30000]),
+                    "ctx": [0, 0], "entry": rng.choice(["parse", "noop"]), "align": rng.below(8)}
+            tasks[0].insert(0, warm)
         sim_seed = rng.next()
         return {
             "id": i, "sim_seed": sim_seed, "entropy": sim_seed >> 1,
+            "reuse_buffer": rng.coin(400), "aged": aged,
             "policy": self.gen_policy(rng, ntasks, est, vs),
             "start_at": [0] * ntasks,
             "fresh_threads": rng.coin(300),
@@ -399,7 +435,7 @@ class ParseSim:
                     break
             ok, out = self.fails_same(best, sig)
             used += 1
-            if ok:
+            if ok and out.get("ok"):
                 best["choices"] = out["choices"]
         # reduce context switches in the recorded schedule
         ch = best.get("choices")
@@ -411,7 +447,7 @@ class ParseSim:
                     cand["choices"] = ch[:i] + [ch[i - 1]] + ch[i + 1:]
                     used += 1
                     ok, o2 = self.fails_same(cand, sig)
-                    if ok:
+                    if ok and o2.get("ok"):
                         best = cand
                         best["choices"] = o2["choices"]
                         ch = best["choices"]
@@ -424,7 +460,7 @@ def stats_init():
     return {"simulations": 0, "steps": 0, "switches": 0, "switches_inside_parse": 0, "cache_hits": 0, "leftrec_rounds": 0,
             "hook_events": 0, "rule_events": 0, "jobs": 0, "jobs_ok": 0, "jobs_err": 0, "overlap_same_variant": 0,
             "overlap_same_input": 0, "same_variant_follows_on_thread": 0, "same_input_again_on_thread": 0,
-            "fresh_thread_sims": 0, "deep_nesting_sims": 0, "sims_mixing_grammars": 0, "unbalanced_trace_callbacks": 0, "failing_jobs_on_memoized_variants": 0}
+            "fresh_thread_sims": 0, "deep_nesting_sims": 0, "aged_process_sims": 0, "buffer_reuse_sims": 0, "sims_mixing_grammars": 0, "unbalanced_trace_callbacks": 0, "failing_jobs_on_memoized_variants": 0}
 
 
 def run_check(prop, tier, seed, replay_path=None):
@@ -489,6 +525,8 @@ def run_check(prop, tier, seed, replay_path=None):
                 stats[k] += out[k]
             stats["fresh_thread_sims"] += 1 if plan.get("fresh_threads") else 0
             stats["deep_nesting_sims"] += 1 if plan.get("deep") else 0
+            stats["aged_process_sims"] += 1 if plan.get("aged") else 0
+            stats["buffer_reuse_sims"] += 1 if plan.get("reuse_buffer") else 0
             if len({self_g for self_g in (ps.by_name[j["variant"]]["grammar"] for q in plan["tasks"] for j in q)}) > 1:
                 stats["sims_mixing_grammars"] += 1
             interleavings.add(out["switch_hash"])
@@ -578,7 +616,7 @@ def run_check(prop, tier, seed, replay_path=None):
                 inp = ps.gen_long_input(rng, g)
                 full = max(memo_vs, key=lambda v: v["mask"])
                 for v in {full["name"], rng.choice(memo_vs)["name"]}:
-                    jobs.append({"variant": v, "rule": ps.by_name[v]["exported"][0], "input": inp, "ctx": [0, 0], "entry": "noop"})
+                    jobs.append({"variant": v, "rule": ps.grammars[g]["long"].get("rule", ps.by_name[v]["exported"][0]), "input": inp, "ctx": [0, 0], "entry": "noop"})
         keys = []
         for j in jobs:
             twin = dict(j)
@@ -609,7 +647,7 @@ def run_check(prop, tier, seed, replay_path=None):
             continue
         plan, sig = v["plan"], v["sig"]
         rep_ok, _ = ps.fails_same(plan, sig)
-        minimal, used = ps.minimise(plan, sig) if rep_ok else (plan, 0)
+        minimal, used = ps.minimise(plan, sig, budget=12 if sig == "noresult" else 150) if rep_ok else (plan, 0)
         fin_ok, fin_out = ps.fails_same(minimal, sig)
         detail = None
         if fin_ok and fin_out.get("ok"):
@@ -690,7 +728,9 @@ def determinism_selftest(ps, make, n):
     diffs = 0
     for x, y in zip(a, b):
         if not x.get("ok") or not y.get("ok"):
-            diffs += 1
+            # no result both times with the same cause is consistent behaviour of the code under test (judged by the main run)
+            if x.get("ok") != y.get("ok") or x.get("error") != y.get("error"):
+                diffs += 1
             continue
         if (x["log_hash"], x["choices"], x["results"]) != (y["log_hash"], y["choices"], y["results"]):
             diffs += 1
